@@ -472,6 +472,8 @@ fn op_c17_compounds(req: &Value) -> Value {
     let mut vcount = 0u64;
     let mut sample = Vec::new();
     let prefixes = [-24, -21, -18, -15, -12, -9, -6, -3, -2, -1, 0, 0, 0, 1, 2, 3, 6, 9, 12, 15, 18, 21, 24];
+    let mut mutated = 0u64;
+    let mut with_zero = 0u64;
 
     for i in 0..count {
         // mostly 1-6 units; now and then none at all (the empty unit) or dozens
@@ -505,6 +507,46 @@ fn op_c17_compounds(req: &Value) -> Value {
             parts.push((k, p, x));
         }
 
+        // Every eighth compound (everyday powers only) is changed through the public `update` / `update_power` before it is
+        // written: cancelled units (power 0), units added later, powers overwritten (seed C17-g).
+        if i % 8 == 3 && parts.iter().all(|p| p.1.abs() < 100) && !parts.is_empty() {
+            let mut muts = Vec::new();
+            for _ in 0..rng.range(1, 4) {
+                let existing = rng.chance(600);
+                let (key, prefix) = if existing {
+                    let p = &parts[rng.below(parts.len() as u64) as usize];
+                    (p.0.clone(), if rng.chance(800) { p.2 } else { 0 })
+                } else {
+                    (keys[rng.below(keys.len() as u64) as usize].clone(), prefixes[rng.below(prefixes.len() as u64) as usize])
+                };
+                let kind = if rng.chance(500) { 0u8 } else { 1u8 };
+                let power = if rng.chance(400) { 0 } else { rng.range(-9, 9) };
+                muts.push((kind, key, power, prefix));
+            }
+            match catch_unwind(|| serdert::compound_mutated_roundtrip(&parts, &muts)) {
+                Ok(Ok(z)) => {
+                    ok += 1;
+                    mutated += 1;
+                    if z > 0 {
+                        with_zero += 1;
+                    }
+                }
+                Ok(Err(e)) => {
+                    vcount += 1;
+                    if violations.len() < 20 {
+                        violations.push(json!({"parts": parts.iter().map(|(k, p, x)| json!([k, p, x])).collect::<Vec<_>>(), "changes": muts.iter().map(|(a, b, c, d)| json!([if *a == 0 { "update" } else { "update_power" }, b, c, d])).collect::<Vec<_>>(), "what": e}));
+                    }
+                }
+                Err(p) => {
+                    vcount += 1;
+                    if violations.len() < 20 {
+                        violations.push(json!({"parts": parts.iter().map(|(k, p, x)| json!([k, p, x])).collect::<Vec<_>>(), "changes": muts.iter().map(|(a, b, c, d)| json!([a, b, c, d])).collect::<Vec<_>>(), "what": format!("panic: {}", vharness::panic_message(&p))}));
+                    }
+                }
+            }
+            continue;
+        }
+
         match catch_unwind(|| serdert::compound_roundtrip(&parts)) {
             Ok(Ok(d)) => {
                 ok += 1;
@@ -530,7 +572,8 @@ fn op_c17_compounds(req: &Value) -> Value {
         }
     }
 
-    json!({"count": count, "ok": ok, "distinct": distinct.len(), "violation_count": vcount, "violations": violations, "sample": sample})
+    json!({"count": count, "ok": ok, "distinct": distinct.len(), "violation_count": vcount, "violations": violations, "sample": sample,
+           "changed_through_update": mutated, "written_with_a_cancelled_unit": with_zero})
 }
 
 fn op_c17_rationals(req: &Value) -> Value {
@@ -896,7 +939,9 @@ fn op_build_foreign(req: &Value) -> Value {
         }
     }
 
-    match catch_unwind(|| idx::build_foreign(&dir, &docs)) {
+    let words_layout = req["layout"].as_str() == Some("words");
+
+    match catch_unwind(|| idx::build_foreign(&dir, &docs, words_layout)) {
         Ok(Ok(())) => json!({"ok": docs.len()}),
         Ok(Err(e)) => json!({"err": e}),
         Err(p) => json!({"panic": vharness::panic_message(&p)}),
